@@ -162,6 +162,8 @@ func (in *c16LimInst) key() string {
 	for _, p := range ps {
 		fmt.Fprintf(&sb, "%s:%d,", p, r.inProgressReqs[peer.ID(p)])
 	}
+	// fields of the limiter this harness does not know (added by a later change) join the key as they are
+	sb.WriteString(seqmc.ExtraFields(r, "PerPeerRPM", "RPM", "DialDataRPM", "MaxConcurrentRequestsPerPeer", "mu", "closed", "reqs", "peerReqs", "dialDataReqs", "inProgressReqs", "now"))
 	// tracker
 	sb.WriteString(" | acc=")
 	for _, a := range in.acc {
